@@ -18,13 +18,14 @@ Record squirks := {
   q_rs_block_comment_counted : bool; (* _node_loc only drops // lines: block comment lines count as code *)
   q_py_setter_counted : bool;        (* @x.setter / @x.deleter functions are counted (only the plain name `property` is recognised) *)
   q_py_cached_property_counted : bool; (* @cached_property functions are counted *)
+  q_ts_class_expr_skipped : bool;    (* TS/JS class expressions (tree-sitter node type `class`) are never looked at: find_all_classes only walks declarations *)
 }.
 (* Repaired in /repo (fix: commits 447c6e4, 24b8b61, c90fc92) and therefore no longer quirks: abstract classes skipped,
    impl target = trait name, generic impls lost, TS line count = raw span.  The model now reads the class node types,
    the impl-target rule and the line-count rule from the generated layer (ts_class_node_types, rs_target_mode,
    ts_loc_mode), so reverting a fix makes the model follow the source again and the theorems fail. *)
-Definition ideal : squirks := Build_squirks false false false false false false false false.
-Definition all_on : squirks := Build_squirks true true true true true true true true.
+Definition ideal : squirks := Build_squirks false false false false false false false false false.
+Definition all_on : squirks := Build_squirks true true true true true true true true true.
 
 (* ------------------------------------------------------------------ configuration (config.py, linter_utils.py) *)
 Record conf := { cf_mm : nat; cf_ml : nat; cf_enabled : bool; cf_check : bool; cf_keywords : list string }.
@@ -96,7 +97,19 @@ Definition eval_clause (env : list (string * mval)) (c : conf) (cl : clause) : l
     end
   end.
 
-Definition evaluate (env : list (string * mval)) (c : conf) : list string := flat_map (eval_clause env c) srp_clauses.
+(* the statements of evaluate_metrics in source order; links: true = the clause is an `elif` of the clause before it, evaluated
+   only when no earlier test of its if / elif chain held (a test holds iff its clause yields its issue text) *)
+Definition is_nil {A : Type} (l : list A) : bool := match l with [] => true | _ => false end.
+Fixpoint eval_chain (env : list (string * mval)) (c : conf) (fired : bool) (cls : list clause) (links : list bool) : list string :=
+  match cls with
+  | [] => []
+  | cl :: r =>
+    let chained := match links with b :: _ => b | [] => false end in
+    let o := if chained && fired then [] else eval_clause env c cl in
+    o ++ eval_chain env c ((chained && fired) || negb (is_nil o)) r (tl links)
+  end.
+
+Definition evaluate (env : list (string * mval)) (c : conf) : list string := eval_chain env c false srp_clauses srp_clause_links.
 
 Definition render_message (env : list (string * mval)) (issues : list string) : string :=
   sconcat (map (fun p => match p with
@@ -165,7 +178,10 @@ Definition py_report (q : squirks) (cfg : conf) (f : sfile) : list rep :=
 
 (* ------------------------------------------------------------------ TypeScript / JavaScript *)
 Definition ts_class_node (k : ckind) : string :=
-  match k with CPlain | CExport | CExportDefault => "class_declaration" | CAbstract | CExportAbstract => "abstract_class_declaration" end.
+  match k with
+  | CPlain | CExport | CExportDefault => "class_declaration" | CAbstract | CExportAbstract => "abstract_class_declaration"
+  | CExprNamed => "class"
+  end.
 Definition ts_member_node (k : mkind) : string :=
   match k with MField => "public_field_definition" | _ => "method_definition" end.
 Definition ts_name_node (k : mkind) : string :=
@@ -207,11 +223,13 @@ Definition ts_class_rep (q : squirks) (cfg : conf) (lines : list line) (c : cls)
   class_rep ts_metrics_dict (ts_class_name c) (ts_count_methods q c) (ts_count_loc q lines c)
             (has_kw ts_kw_mode (cf_keywords cfg) (ts_class_name c)) (c_line c - c_deco c - 1) (c_col c) (c_line c - 1) (c_col c) cfg.
 
-(* find_all_classes: the nodes whose type is one of the types walked *)
-Definition ts_found (c : cls) : bool := smem (ts_class_node (c_kind c)) ts_class_node_types.
+(* find_all_classes: the nodes whose type is one of the types walked (patched table: the property also demands class expressions) *)
+Definition ts_walked_types (q : squirks) : list string :=
+  if q_ts_class_expr_skipped q then ts_class_node_types else ts_class_node_types ++ ["class"].
+Definition ts_found (q : squirks) (c : cls) : bool := smem (ts_class_node (c_kind c)) (ts_walked_types q).
 
 Definition ts_report (q : squirks) (cfg : conf) (f : sfile) : list rep :=
-  flat_map (ts_class_rep q cfg (f_lines f)) (filter ts_found (f_classes f)).
+  flat_map (ts_class_rep q cfg (f_lines f)) (filter (ts_found q) (f_classes f)).
 
 (* ------------------------------------------------------------------ Rust *)
 Definition rs_member_node (k : mkind) : string := match k with MField => "const_item" | _ => "function_item" end.
